@@ -227,6 +227,11 @@ func NewBlockResultsMeta(results *consensus.BlockResults) (*BlockResultsMeta, er
 	if err := cbor.Unmarshal(results.Meta, &meta); err != nil {
 		return nil, fmt.Errorf("malformed block results metadata: %w", err)
 	}
+	for i, r := range meta.TxsResults {
+		if r == nil {
+			return nil, fmt.Errorf("malformed block results metadata: missing result of transaction %d", i)
+		}
+	}
 
 	return &meta, nil
 }
